@@ -419,7 +419,7 @@ Section WithBlockDecoder.
     let s := tmpin_write s (ztake n (l_src l)) n in
     let l := adv (with_s l s) n in
     if d_tmpInSize s <? d_tmpInTarget s
-    then (l, Stop ((d_tmpInTarget s - d_tmpInSize s) + bcsize s + FD_BHSize))
+    then (l, Stop ((d_tmpInTarget s - d_tmpInSize s) + FD_BHSize))
     else do_cblock o l (ztake (d_tmpInTarget s) (d_tmpIn s)).
 
   (* suffix (content checksum) *)
